@@ -344,3 +344,36 @@ def set_parents(tree):
     for n in ast.walk(tree):
         for ch in ast.iter_child_nodes(n):
             ch._parent = n  # type: ignore[attr-defined]
+
+
+def inline_simple_calls(mod: "ModuleInfo", expr: ast.AST, depth: int = 2) -> ast.AST:
+    """Copy of `expr` in which every call `h(a1, .., an)` of a module-level function whose body is a single
+    `return E` (positional parameters only, no defaults used) is replaced by E[params := arguments].  The arguments
+    must be side-effect-free names / attribute reads / subscripts / constants (each parameter may then be duplicated)."""
+    import copy
+
+    def simple(a):
+        return all(isinstance(x, (ast.Name, ast.Attribute, ast.Subscript, ast.Constant, ast.Load, ast.Tuple, ast.Index))
+                   for x in ast.walk(a))
+
+    class Inl(ast.NodeTransformer):
+        def visit_Call(self, node):
+            self.generic_visit(node)
+            if isinstance(node.func, ast.Name) and not node.keywords and all(simple(a) for a in node.args):
+                h = mod.functions.get(node.func.id)
+                if h is not None and len(h.params()) == len(node.args) and not h.node.args.vararg and not h.node.args.kwarg:
+                    body = [s for s in h.node.body if not (isinstance(s, ast.Expr) and isinstance(s.value, ast.Constant))]
+                    if len(body) == 1 and isinstance(body[0], ast.Return) and body[0].value is not None:
+                        m = dict(zip(h.params(), node.args))
+
+                        class Sub(ast.NodeTransformer):
+                            def visit_Name(self, n):
+                                return copy.deepcopy(m[n.id]) if n.id in m and isinstance(n.ctx, ast.Load) else n
+                        out = Sub().visit(copy.deepcopy(body[0].value))
+                        return ast.copy_location(out, node)
+            return node
+    out = copy.deepcopy(expr)
+    for _ in range(depth):
+        out = Inl().visit(out)
+    ast.fix_missing_locations(out)
+    return out
